@@ -21,6 +21,19 @@ type seqFunVars struct {
 	noItem  bool
 }
 
+// notCaller wraps the function given as :test-not, the complement of :test.
+type notCaller struct {
+	test slip.Caller
+}
+
+// Call the wrapped test and negate the result.
+func (nc notCaller) Call(s *slip.Scope, args slip.List, depth int) slip.Object {
+	if nc.test.Call(s, args, depth) == nil {
+		return slip.True
+	}
+	return nil
+}
+
 func (sfv *seqFunVars) setKeysItem(f slip.Object, s *slip.Scope, args slip.List, depth int) {
 	pos := 2
 	min := 2
@@ -48,6 +61,8 @@ func (sfv *seqFunVars) setKeysItem(f slip.Object, s *slip.Scope, args slip.List,
 			sfv.key = ResolveToCaller(s, args[pos+1], depth)
 		case ":test":
 			sfv.test = ResolveToCaller(s, args[pos+1], depth)
+		case ":test-not":
+			sfv.test = notCaller{test: ResolveToCaller(s, args[pos+1], depth)}
 		case ":start":
 			if num, ok := args[pos+1].(slip.Fixnum); ok && 0 <= num {
 				sfv.start = int(num)
